@@ -308,6 +308,9 @@ func (s *Sim) DeliverBlock(b *refchain.Block) {
 		if err != nil || !isOrphan {
 			s.Fail("process:orphan-expected", "block %s whose parent %s has no data: main=%v orphan=%v err=%v", b.Name, b.Parent.Name, isMain, isOrphan, err)
 		} else {
+			if st == SHeader {
+				s.HdrAlso[b] = true // the header stays in the index while the block waits in the orphan pool
+			}
 			s.Status[b] = SOrphan
 			s.orphanOrder = append(s.orphanOrder, b)
 		}
